@@ -659,8 +659,8 @@ def run(ctx):
     ctx.cov["exercised_only"] = [
         "spans of the 171 other regex features and of the SQL-derived labels/taxa are ordered in-range lines",
         "CPython line numbers lie within the text",
-        "that the two captures of whole_span are the first and the last positioned node of the dump (checked on every real "
-        "tree by harness/c02_tree.py; C02_whole_span / C02_meta_program_once are about the matcher and pos_to_span)",
+        "that the real regex engine behaves as the hand matchers of `node` / `whole_span` (validated on every run); the "
+        "theorems C02_node_*, C02_whole_span_exists, C02_meta_program_exactly_once are about these matchers on the tree model",
     ]
     known = {k.get("signature") for k in core.load_known() if k.get("property") == ctx.pid and k.get("status") == "finding"}
     unknown = [v for v in ctx.violations if v.get("signature") is None or v.get("signature") not in known]
